@@ -1158,6 +1158,42 @@ pub fn lane_runs(seed: u64) -> Vec<Scenario> {
             out.push(sc);
         }
     }
+    // a document given with -P runs in front of EVERY document of the run (its test cases carry
+    // one name each, so only how often they run is judged here: C20 alone)
+    let mut g2 = G::new(seed ^ 0x3a17);
+    for k in 0..4usize {
+        let mut sim = base_sim(g2.rng.next_u64());
+        let p1 = [Plan::new(Fate::Pass)];
+        let p2 = [Plan::new(Fate::Pass), Plan::new(Fate::Pass)];
+        let mut mk = |g: &mut G, sim: &mut SimScenario, path: &str, plans: &[Plan]| {
+            let tests = plans.iter().map(|p| g.test(p, &mut sim.programs)).collect();
+            doc(path, Format::Md, tests)
+        };
+        let mut docs = vec![mk(&mut g2, &mut sim, "q/one.md", &p2), mk(&mut g2, &mut sim, "q/two.md", &p1), mk(&mut g2, &mut sim, "q/three.md", &p2)];
+        if k >= 2 {
+            docs.pop();
+        }
+        let mut shared = mk(&mut g2, &mut sim, "shared/common.md", &p1);
+        shared.main = false;
+        docs.push(shared);
+        let mut cli = Cli::default();
+        cli.prepend.push("shared/common.md".into());
+        cli.relative_paths = k % 2 == 1;
+        let mut sc = Scenario {
+            lane: format!("runs/all-pass/cli-prepend-several-mains/{}", k),
+            tier: Tier::Cli,
+            script_mode: false,
+            docs,
+            cli,
+            sim,
+            pretty: false,
+            check: vec!["C20".into()],
+            partner: None,
+            turns: None,
+        };
+        fill_expectations(&mut sc, &mut g2);
+        out.push(sc);
+    }
     out
 }
 
